@@ -222,7 +222,8 @@ def execute(machine_cls, record, generate):
             record["ops"] = []
         cfg = record["config"]
         seams.NPRANDOM.reseed(cfg.get("rs", 0))
-        m.setup(cfg)
+        # machines get private copies: the record (= replay file) must stay as generated
+        m.setup(json.loads(json.dumps(cfg)))
         canon(cfg, log)
         i = 0
         while True:
@@ -242,7 +243,7 @@ def execute(machine_cls, record, generate):
             i += 1
             seams.NPRANDOM.reseed(op.get("rs", 0), op.get("inject"))
             try:
-                out = m.apply(op)
+                out = m.apply(json.loads(json.dumps(op)))
             except Skip:
                 skipped += 1
                 out = "skip"
